@@ -1382,6 +1382,18 @@ fn parse_expr_ternary(
         _ => None,
     };
 
+    // The literal types only exist to type scalar literals
+    // When either arm is a vector or matrix the result has the type the literal receives when it meets a typed value
+    let is_scalar_result = matches!(
+        (lhs_tyl, rhs_tyl),
+        (ir::TypeLayer::Scalar(_), ir::TypeLayer::Scalar(_))
+    );
+    let st = match st {
+        Some(ir::ScalarType::IntLiteral) if !is_scalar_result => Some(ir::ScalarType::Int32),
+        Some(ir::ScalarType::FloatLiteral) if !is_scalar_result => Some(ir::ScalarType::Float32),
+        st => st,
+    };
+
     // Attempt to find best vector match
     // This will return None for non-numeric types
     // This may return None for some combinations of numeric layouts
